@@ -902,7 +902,12 @@ func Stress(t *rapid.T, kind string, n int) *m.Expr {
 
 // StressFixed is Stress without random choices.
 func StressFixed(kind string, n int, sel bool) *m.Expr {
-	lit := func(i int) *m.Expr { return m.Lit("num", strconv.Itoa(i%1000)) }
+	lit := func(i int) *m.Expr {
+		if n > 5000 {
+			return m.Lit("num", strconv.Itoa(i%10)) // keep huge sources short
+		}
+		return m.Lit("num", strconv.Itoa(i%1000))
+	}
 	switch kind {
 	case "deep-right":
 		e := lit(1)
